@@ -158,13 +158,13 @@ theorem diffCols2_keeps (mysql : Bool) : ∀ (ocs : List Column) (t t' : Table) 
 
 end Table
 
-/-- **C01 / C02: a column equal on both sides is left alone**, end to end (MySQL reader model, schemas without PRIMARY
-    KEY declarations).  For two scripts the reference engine accepts and a table present on both sides: if a column has,
+/-- **C01 / C02: a column equal on both sides is left alone**, end to end (MySQL reader model, schemas without an inline
+    PRIMARY KEY option; keys declared at table level are fine).  For two scripts the reference engine accepts and a table present on both sides: if a column has,
     on both sides, the same type and the same options up to order, then neither `MigrationColumnUp` nor
     `MigrationColumnDown` of the diffed record prints an ADD / DROP / MODIFY COLUMN statement about it. -/
 theorem equal_column_untouched (g : Globals) (hg : g.dialect = .mysql) (rc : Bool)
     (old new : List Stmt) (dbO dbN : DB) (ho : old.all Stmt.elemSafe = true) (hn : new.all Stmt.elemSafe = true)
-    (hpo : old.all Stmt.plain = true) (hpn : new.all Stmt.plain = true)
+    (hpo : old.all Stmt.plainOpts = true) (hpn : new.all Stmt.plainOpts = true)
     (heo : execAll rc [] old = some dbO) (hen : execAll rc [] new = some dbN)
     (d : Migration) (hd : loadAndDiff g old new = .ok d)
     (t : String) (tbO tbN : TableSpec) (hfo : dbO.find t = some tbO) (hfn : dbN.find t = some tbN)
@@ -181,8 +181,8 @@ theorem equal_column_untouched (g : Globals) (hg : g.dialect = .mysql) (rc : Boo
   obtain ⟨n, hln, hd⟩ := bind_ok hd
   obtain ⟨mo, hmo', hro⟩ := ReaderMysql.run_rel rc old {} [] dbO Rel.empty hoc heo
   obtain ⟨mn, hmn', hrn⟩ := ReaderMysql.run_rel rc new {} [] dbN Rel.empty hnc hen
-  have hplo := ReaderMysql.run_plain old {} mo Migration.plain_empty hpo hmo'
-  have hpln := ReaderMysql.run_plain new {} mn Migration.plain_empty hpn hmn'
+  have hplo : mo.Plain False := ReaderMysql.run_plain old {} mo Migration.plain_empty hpo (fun k => k.elim) hmo'
+  have hpln : mn.Plain False := ReaderMysql.run_plain new {} mn Migration.plain_empty hpn (fun k => k.elim) hmn'
   have : mo = o := by
     have : readScript g {} old = .ok mo := by unfold readScript; rw [hg]; exact hmo'
     rw [this] at hlo; exact Except.ok.inj hlo
